@@ -253,7 +253,8 @@ def main():
             new_found = False
             # at most 8 counterexamples per distinct claim, one per (claim, shape), claims interleaved
             byclaim = {}
-            for v in vlist:
+            # larger shapes first: a defect is more often observable natively on them (a one-element shuffle shows nothing)
+            for v in sorted(vlist, key=lambda v: -len(json.dumps(v['inputs'], default=str))):
                 lst = byclaim.setdefault(v['what'], [])
                 skey = json.dumps(v['shape'], sort_keys=True, default=str)
                 if len(lst) < 8 and all(json.dumps(x['shape'], sort_keys=True, default=str) != skey for x in lst):
@@ -294,14 +295,19 @@ def main():
 
         first = tot['violations'] + tot['bounds']
         triage(first)
-        if first and not reproduced and not not_reproduced:
-            # every counterexample of the first pass is a listed known finding: a listed finding must not hide other
-            # violations, so explore everything and triage every distinct claim / shape
-            log.append('first pass found only known findings; second pass without stopping at the first violation')
+        if first and not reproduced:
+            # every counterexample of the first pass is a listed known finding (a listed finding must not hide other
+            # violations) or did not reproduce natively (its shape may simply not make the defect observable, e.g. a
+            # one-element shuffle): explore everything and triage every distinct claim / shape
+            log.append('first pass found only known findings / non-reproducing counterexamples; second pass without stopping at the first violation')
+            first_nr = list(not_reproduced)
+            del not_reproduced[:]
             opts2 = dict(opts, stop_on_violation=False, first_only=False, deadline=time.time() + budget)
             results = engine.run_harness(pid.lower(), shapes, opts2, procs=args.procs)
             tot = engine.summarize(results)
             triage(tot['violations'] + tot['bounds'])
+            if not reproduced and not not_reproduced:
+                not_reproduced.extend(first_nr)
         for l in kf_lines:
             print(l)
         incon = list(tot['unsupported'])
